@@ -146,6 +146,7 @@ def gen_file(rng, fields: List[Dict[str, Any]], kind: str) -> Dict[str, Any]:
 
 
 def gen_tx_case(rng, ntx: int) -> Dict[str, Any]:
+    from harness.lib.c11_open import PLAIN_VARIANTS, gen_open
     from harness.props.c11 import BUILD_MODES, KEEPS_SID, VARIANTS, gen_records, make_variant, mk_fields
     fields = mk_fields(rng, rng.choice([1, 2, 2, 3]))
     txs = []
@@ -165,7 +166,7 @@ def gen_tx_case(rng, ntx: int) -> Dict[str, Any]:
                 calls.append({"op": "files", "files": files})
             else:
                 while True:
-                    vname = rng.choice(VARIANTS[:13] + ["omitted", "identical", "identical"] * 4)
+                    vname = rng.choice(VARIANTS[:14] + ["omitted", "identical", "identical"] * 4)
                     v = make_variant(rng, fields, vname)
                     if v is not None:
                         break
@@ -179,6 +180,18 @@ def gen_tx_case(rng, ntx: int) -> Dict[str, Any]:
             if rng.random() < 0.2:
                 c["fault"] = copy.deepcopy(rng.choice(FAULT_SPECS))
         txs.append({"handle": rng.choice(["A", "A", "B", "fresh"]), "calls": calls, "end": rng.choice(ENDS)})
+        # handle provenance (harness/lib/c11_open.py): the transaction's handle is (re-)obtained right before it
+        if rng.random() < 0.35:
+            txs[-1]["open"] = gen_open(rng, fields)
+            # ... and a pre-built file may carry exactly the layout that handle was configured with
+            if txs[-1]["open"].get("variant") in PLAIN_VARIANTS and all(isinstance(f["type"], str) for f in txs[-1]["open"]["arg"]):
+                for c in calls:
+                    if c["op"] == "files" and rng.random() < 0.5:
+                        k = rng.randrange(len(c["files"]))
+                        c["files"][k] = gen_file(rng, txs[-1]["open"]["arg"], "layout")
+                        c["files"][k]["layout"] = copy.deepcopy(txs[-1]["open"]["arg"])
+        if rng.random() < 0.1:
+            txs[-1]["also_open"] = gen_open(rng, fields)
     return {"kind": "tx", "fields": fields, "txs": txs, "seed": rng.getrandbits(30)}
 
 
@@ -188,13 +201,14 @@ def tx_case_json(case: Dict[str, Any]) -> Dict[str, Any]:
         calls = []
         for c in tx["calls"]:
             if c["op"] == "files":
-                calls.append({"op": "files", "files": [{"kind": f["kind"], "rows": [enc_record(r) for r in f["rows"]]} for f in c["files"]]})
+                calls.append({"op": "files", "files": [{"kind": f["kind"], "rows": [enc_record(r) for r in f["rows"]],
+                                                        **({"layout": f["layout"]} if f.get("layout") else {})} for f in c["files"]]})
             else:
                 calls.append({"op": "records", "variant": c["variant"], "arg": c["arg"], "sid": c["sid"], "build": c.get("build", "fresh"),
                               "records": [enc_record(r) for r in c["records"]]})
             if c.get("fault"):
                 calls[-1]["fault"] = c["fault"]
-        out["txs"].append({"handle": tx["handle"], "end": tx["end"], "calls": calls})
+        out["txs"].append({"handle": tx["handle"], "end": tx["end"], "calls": calls, **{k: tx[k] for k in ("open", "also_open") if tx.get(k)}})
     return out
 
 
@@ -204,13 +218,14 @@ def tx_case_unjson(j: Dict[str, Any]) -> Dict[str, Any]:
         calls = []
         for c in tx["calls"]:
             if c["op"] == "files":
-                calls.append({"op": "files", "files": [{"kind": f["kind"], "rows": [dec_record(r) for r in f["rows"]]} for f in c["files"]]})
+                calls.append({"op": "files", "files": [{"kind": f["kind"], "rows": [dec_record(r) for r in f["rows"]],
+                                                        **({"layout": f["layout"]} if f.get("layout") else {})} for f in c["files"]]})
             else:
                 calls.append({"op": "records", "variant": c["variant"], "arg": c["arg"], "sid": c["sid"], "build": c.get("build", "fresh"),
                               "records": [dec_record(r) for r in c["records"]]})
             if c.get("fault"):
                 calls[-1]["fault"] = c["fault"]
-        out["txs"].append({"handle": tx["handle"], "end": tx["end"], "calls": calls})
+        out["txs"].append({"handle": tx["handle"], "end": tx["end"], "calls": calls, **{k: tx[k] for k in ("open", "also_open") if tx.get(k)}})
     return out
 
 
@@ -224,7 +239,10 @@ def build_file(root: str, fields: List[Dict[str, Any]], spec: Dict[str, Any], na
     kind = spec["kind"]
     base = table_footer(fields)
     footer = base
-    if kind == "reordered":
+    if kind == "layout":
+        # a file written with the layout of another schema (e.g. the one a handle was configured with)
+        footer = table_footer(spec["layout"])
+    elif kind == "reordered":
         footer = pa.schema(list(base)[1:] + list(base)[:1])
     elif kind == "retyped":
         f0 = base.field(0)
@@ -284,6 +302,7 @@ def build_file(root: str, fields: List[Dict[str, Any]], spec: Dict[str, Any], na
 def run_tx_case(case: Dict[str, Any], root: str, filters_per_col: int = 1) -> Dict[str, Any]:
     from datashard import create_table, load_table
     from datashard.data_structures import Schema
+    from harness.lib.c11_open import observe_cache, open_label, open_real
     from harness.props.c11 import OPS, _eval_filter, _judge_rows, _same_rows, build_schema, declared_type, observe, same_table_state
     rng = random.Random(case.get("seed", 0))
     shutil.rmtree(root, ignore_errors=True)
@@ -294,9 +313,23 @@ def run_tx_case(case: Dict[str, Any], root: str, filters_per_col: int = 1) -> Di
     trace: List[Dict[str, Any]] = []
     supplied: List[Tuple[Dict[str, str], Dict[str, Any]]] = []
     opaque = {f["name"]: "opaque" for f in fields}
+    alive: List[Any] = []
     for ti, tx in enumerate(case["txs"]):
         h = tx["handle"]
-        if h == "fresh":
+        tev: Dict[str, Any] = {"tx": ti, "handle": h, "end": tx["end"], "calls": []}
+        extra = None
+        if tx.get("also_open"):
+            extra, why = open_real(tx["also_open"], root, fields, handles.get("A"))
+            alive.append(extra)
+            tev["also_open"] = open_label(tx["also_open"]) + (f" raised {why}" if why else "")
+            tev["also_open_failed"] = bool(why)
+        if tx.get("open"):
+            handle, why = open_real(tx["open"], root, fields, handles.get(h) if h != "fresh" else None)
+            tev["open"] = open_label(tx["open"]) + (f" raised {why}" if why else "")
+            tev["open_failed"] = bool(why)
+            if h != "fresh":
+                handles[h] = handle
+        elif h == "fresh":
             handle = load_table(root)
         else:
             if h not in handles:
@@ -305,7 +338,6 @@ def run_tx_case(case: Dict[str, Any], root: str, filters_per_col: int = 1) -> Di
         before_tx = observe(root)
         inj = faults_of(handle)
         t = handle.new_transaction().begin()
-        tev: Dict[str, Any] = {"tx": ti, "handle": h, "end": tx["end"], "calls": []}
         pending: List[Tuple[Dict[str, str], Dict[str, Any]]] = []
         rejected_paths: List[str] = []
         any_accepted = False
@@ -323,7 +355,7 @@ def run_tx_case(case: Dict[str, Any], root: str, filters_per_col: int = 1) -> Di
                         dfs.append(df)
                         paths.append(rel)
                         cev["files"].append({"kind": spec["kind"], "footer": foot, "rows": rows_seen, "path": rel})
-                        mine += [(opaque, r) for r in rows_seen]
+                        mine += [(opaque if set(r) == set(opaque) else {k: "opaque" for k in r}, r) for r in rows_seen]
                     b = observe(root)               # the files were put there by the caller, before the call
                     inj.arm(call.get("fault"))
                     t.append_files(dfs)
@@ -390,6 +422,8 @@ def run_tx_case(case: Dict[str, Any], root: str, filters_per_col: int = 1) -> Di
         tev["nsnaps"] = len(after["snapshots"])
         tev["files"] = [{"schema": f["schema"], "rows": f["rows"], "lo": f["lo"], "hi": f["hi"], "path": f["path"]} for f in after["files"]]
         tev["store"] = len([x for x in after["store"] if x.startswith("auto_")])
+        tev["cache"] = observe_cache(handle)
+        tev["cache_extra"] = observe_cache(extra) if extra is not None else None
         # ---- scans
         fresh = load_table(root)
         try:
@@ -398,6 +432,15 @@ def run_tx_case(case: Dict[str, Any], root: str, filters_per_col: int = 1) -> Di
             got = None
             violations.append(("tx-scan-raises", f"tx {ti} [{label}]: full scan raises {type(e).__name__}: {str(e)[:200]}"))
         tev["scan"] = "raises" if got is None else len(got)
+        if got is not None and not violations:
+            try:                                     # "later scans": also through the handle that ran the transaction
+                got_h = handle.scan()
+                if not _same_rows(got_h, got):
+                    violations.append(("tx-scan-differs-through-handle", f"tx {ti} [{label}]: the full scan through the transaction's handle "
+                                       f"({tev.get('open', 'default')}) returns {got_h!r:.200}, a newly loaded handle returns {got!r:.200}"))
+            except Exception as e:                   # noqa: BLE001
+                violations.append(("tx-scan-raises-through-handle", f"tx {ti} [{label}]: the full scan through the transaction's handle "
+                                   f"({tev.get('open', 'default')}) raises {type(e).__name__}: {str(e)[:160]}"))
         if got is not None and not violations:
             bad = _judge_rows(supplied, got)
             if bad:
@@ -443,6 +486,12 @@ def shrink_tx(case: Dict[str, Any], fails) -> Dict[str, Any]:
                 del d["txs"][i]
                 yield d
         for i, tx in enumerate(c["txs"]):
+            for k in ("also_open", "open"):
+                if tx.get(k):
+                    d = copy.deepcopy(c)
+                    del d["txs"][i][k]
+                    yield d
+        for i, tx in enumerate(c["txs"]):
             for j in range(len(tx["calls"])):
                 if len(tx["calls"]) > 1:
                     d = copy.deepcopy(c)
@@ -466,7 +515,8 @@ def shrink_tx(case: Dict[str, Any], fails) -> Dict[str, Any]:
                     d["txs"][i]["calls"][j]["records"] = call["records"][:1]
                     yield d
         if len(c["fields"]) > 1 and all(call["op"] == "files" for tx in c["txs"] for call in tx["calls"]) \
-                and not any(f["kind"] == "reordered" for tx in c["txs"] for call in tx["calls"] for f in call["files"]):
+                and not any(f["kind"] in ("reordered", "layout") for tx in c["txs"] for call in tx["calls"] for f in call["files"]) \
+                and not any(tx.get("open") or tx.get("also_open") for tx in c["txs"]):
             d = copy.deepcopy(c)
             drop = d["fields"].pop()["name"]
             for tx in d["txs"]:
